@@ -2,6 +2,7 @@
    shortest-form CBOR).  Nothing but statements closed by `exact`; proofs live in Proofs/. *)
 From MC Require Import Bytes Cbor Item Acc Encoder Methods Calls Types EncoderFacts ItemFacts MethodsWf CallsFacts.
 From MC Require Import Denote TypesFacts TypesItem.
+From MC Require Import Iana IanaReg IanaFacts.
 Local Open Scope N_scope.
 
 (* Every Encoder method that writes a whole item produces exactly the RFC 8949 preferred
@@ -100,3 +101,16 @@ Print Assumptions C03_heads.
 Print Assumptions C03_types.
 Print Assumptions C03_types_wellformed.
 Print Assumptions C03_types_tag.
+
+(* data::IanaTag (Model/Iana.v): the Encode impl writes exactly the shortest tag head of the number the IANA registry assigns to
+   the variant (Spec/IanaReg.v: RFC 8949 section 3.4 and RFC 8746, transcribed in decimal, independently of the code's tables) … *)
+Theorem C03_iana : forall t, flat (enc_iana t) = phead 6 (iana_registry t).
+Proof. exact iana_encode_head. Qed.
+
+(* … and the two conversion tables (From<IanaTag> for Tag, TryFrom<Tag> for IanaTag) are mutually inverse, for EVERY tag number. *)
+Theorem C03_iana_tables : (forall t, iana_of_tag (iana_to_tag t) = Some t)
+  /\ (forall n t, iana_of_tag n = Some t -> iana_to_tag t = n) /\ (forall t, iana_to_tag t = iana_registry t).
+Proof. exact (conj iana_of_to (conj iana_to_of iana_registry_agrees)). Qed.
+
+Print Assumptions C03_iana.
+Print Assumptions C03_iana_tables.
